@@ -63,3 +63,38 @@ package updown
 //@   after call:Write#2: assert [row] written(w)[len(written(w))-1] == udLine.id + "," + join(udLine.snps, "|") + "," + join(ambstrings, "|") + "," + itoa(udLine.snpCount) + "," + itoa(udLine.ambCount) + "\n"
 //@   ensures [c19.reported] implies(failed(w), len(sent(cErr)) >= 1 && len(sent(cWriteDone)) == 0)
 //@   ensures [c12.done] implies(!failed(w), len(sent(cErr)) == 0 && len(sent(cWriteDone)) == 1 && len(written(w)) == 1 + len(recv(cudLs)))
+
+//@ # C10: one pass over the columns. Ghost = the specification's run-length state: gAmb (inside a run of non-A/C/G/T
+//@ # columns), gStart (its first column, 0-based), gRuns (runs closed so far), gLastEnd (1-based end of the last closed run).
+//@ # SNP list entries are pinned through count() exactly as in snps.getSNPs; ambiguity ranges are asserted at the point
+//@ # where each pair is appended: it is a maximal run (bounded by resolved columns or the sequence ends), 1-based inclusive,
+//@ # strictly after the previous range with at least one resolved column in between.
+//@ spec resolved(b byte) bool = (b & 8) == 8
+//@ func getLines
+//@   modifies cUDs, cErr
+//@   ghost gAmb bool = false
+//@   ghost gStart int = 0
+//@   ghost gRuns int = 0
+//@   ghost gLastEnd int = 0
+//@   loop 1:
+//@     invariant len(sent(cUDs)) == range_i
+//@     invariant forall(t, 0, range_i, sent(cUDs)[t].idx == recv(cFR)[t].Idx && sent(cUDs)[t].id == recv(cFR)[t].ID && len(sent(cUDs)[t].ambs) % 2 == 0)
+//@     invariant implies(exists(t, 0, range_i, len(recv(cFR)[t].Seq) != len(refSeq)), len(sent(cErr)) >= 1)
+//@     do-start gAmb = false; gStart = 0; gRuns = 0; gLastEnd = 0
+//@   loop 2:
+//@     invariant len(sent(cUDs)) == range_i1
+//@     invariant cont == gAmb && len(ambs) == 2 * gRuns && gRuns >= 0 && 0 <= gLastEnd && implies(gRuns > 0, gLastEnd < i)
+//@     invariant implies(cont, 0 <= gStart && gStart < i && amb_start == gStart && amb_stop == i - 1 && forall(k, gStart, i, !resolved(FR.Seq[k])) && (gStart == 0 || resolved(FR.Seq[gStart-1])) && implies(gRuns > 0, gStart + 1 >= gLastEnd + 2))
+//@     invariant implies(!cont, i == 0 || resolved(FR.Seq[i-1]))
+//@     invariant implies(gRuns > 0, ambs[len(ambs)-1] == gLastEnd)
+//@     invariant ambCount == count(k, 0, i, !resolved(FR.Seq[k]))
+//@     invariant snpCount == count(k, 0, i, resolved(FR.Seq[k]) && (refSeq[k] & FR.Seq[k]) < 16) && len(snps) == snpCount && len(snpPos) == snpCount
+//@     invariant forall(j, 0, i, implies(resolved(FR.Seq[j]) && (refSeq[j] & FR.Seq[j]) < 16, snps[count(k, 0, j, resolved(FR.Seq[k]) && (refSeq[k] & FR.Seq[k]) < 16)] == DA[refSeq[j]] + itoa(j+1) + DA[FR.Seq[j]]))
+//@     invariant forall(j, 0, i, implies(resolved(FR.Seq[j]) && (refSeq[j] & FR.Seq[j]) < 16, snpPos[count(k, 0, j, resolved(FR.Seq[k]) && (refSeq[k] & FR.Seq[k]) < 16)] == j+1))
+//@     do-end if !resolved(FR.Seq[i]) { if !gAmb { gAmb = true; gStart = i } } else { if gAmb { gAmb = false; gRuns++; gLastEnd = i } }
+//@   after append#4: assert [range.mid] gAmb && ambs[len(ambs)-2] == gStart + 1 && ambs[len(ambs)-1] == i && resolved(FR.Seq[i]) && forall(k, gStart, i, !resolved(FR.Seq[k])) && (gStart == 0 || resolved(FR.Seq[gStart-1])) && implies(gRuns > 0, gStart + 1 >= gLastEnd + 2)
+//@   after append#6: assert [range.end] gAmb && ambs[len(ambs)-2] == gStart + 1 && ambs[len(ambs)-1] == len(FR.Seq) && forall(k, gStart, len(FR.Seq), !resolved(FR.Seq[k])) && (gStart == 0 || resolved(FR.Seq[gStart-1]))
+//@   before send#2: assert [line.counts] udLine.snpCount == count(k, 0, len(FR.Seq), resolved(FR.Seq[k]) && (refSeq[k] & FR.Seq[k]) < 16) && udLine.ambCount == count(k, 0, len(FR.Seq), !resolved(FR.Seq[k])) && len(udLine.snps) == udLine.snpCount && len(udLine.snpsPos) == udLine.snpCount && len(udLine.ambs) == 2 * ite(gAmb, gRuns + 1, gRuns)
+//@   before send#2: assert [line.snps] forall(j, 0, len(FR.Seq), implies(resolved(FR.Seq[j]) && (refSeq[j] & FR.Seq[j]) < 16, udLine.snps[count(k, 0, j, resolved(FR.Seq[k]) && (refSeq[k] & FR.Seq[k]) < 16)] == DA[refSeq[j]] + itoa(j+1) + DA[FR.Seq[j]] && udLine.snpsPos[count(k, 0, j, resolved(FR.Seq[k]) && (refSeq[k] & FR.Seq[k]) < 16)] == j+1))
+//@   ensures len(sent(cUDs)) == len(recv(cFR))
+//@   ensures [c18.width] implies(exists(t, 0, len(recv(cFR)), len(recv(cFR)[t].Seq) != len(refSeq)), len(sent(cErr)) >= 1)
